@@ -163,15 +163,31 @@ pub fn encode_table(rng: &mut Rng, cmp: &CmpKind, es: &[(Vec<u8>, Vec<u8>)], mut
         img.extend_from_slice(&physical(&data, ty));
         (off, data.len())
     };
-    let mut blocks = vec![];
-    let mut index: Vec<(Vec<u8>, Vec<u8>)> = vec![];
-    for (bi, part) in parts.iter().enumerate() {
+    // physical placement: usually in key order; one table in four places its data blocks in a shuffled order
+    // (the format does not tie file order to key order)
+    let mut order: Vec<usize> = (0..parts.len()).collect();
+    if !mutate && parts.len() > 1 && rng.chance(1, 4) {
+        for i in (1..order.len()).rev() {
+            let j = rng.below(i + 1);
+            order.swap(i, j);
+        }
+        desc.push("shuffled".into());
+    }
+    let mut placed: Vec<Option<(usize, usize)>> = vec![None; parts.len()];
+    for bi in order.iter() {
+        let part = &parts[*bi];
         let inflate = mutate && rng.chance(1, 3);
         let mut c = block_contents_x(rng, part, true, inflate);
         if mutate && rng.chance(1, 3) {
             damage(rng, &mut c);
         }
-        let (off, size) = emit(rng, &mut img, &c, true);
+        placed[*bi] = Some(emit(rng, &mut img, &c, true));
+    }
+    let trailing = !mutate && rng.chance(1, 10);
+    let mut blocks = vec![];
+    let mut index: Vec<(Vec<u8>, Vec<u8>)> = vec![];
+    for (bi, part) in parts.iter().enumerate() {
+        let (off, size) = placed[bi].unwrap();
         blocks.push((off, size, part.clone()));
         let last = &part[part.len() - 1].0;
         let sep = match cmp {
@@ -203,6 +219,11 @@ pub fn encode_table(rng: &mut Rng, cmp: &CmpKind, es: &[(Vec<u8>, Vec<u8>)], mut
             }
         };
         let mut hv = handle(off, size);
+        if trailing {
+            // bytes after the handle inside an index value are ignored by readers
+            let extra = rng.range(1, 3);
+            hv.extend(rng.any_bytes(extra));
+        }
         if mutate && rng.chance(1, 12) {
             damage(rng, &mut hv);
         }
@@ -237,7 +258,7 @@ pub fn encode_table(rng: &mut Rng, cmp: &CmpKind, es: &[(Vec<u8>, Vec<u8>)], mut
             let pol = BloomPolicy::new(*bits);
             let mut filters: Vec<u8> = vec![];
             let mut offsets: Vec<u32> = vec![];
-            let nfilters = blocks.last().map(|b| (b.0 >> base_lg) + 1).unwrap_or(0);
+            let nfilters = blocks.iter().map(|b| (b.0 >> base_lg) + 1).max().unwrap_or(0);
             for fi in 0..nfilters {
                 offsets.push(filters.len() as u32);
                 let keys: Vec<Vec<u8>> = blocks.iter().filter(|b| (b.0 >> base_lg) == fi).flat_map(|b| b.2.iter().map(|e| e.0.clone())).collect();
